@@ -127,14 +127,13 @@ func newStore(kind string, c *tcase) storage.Store {
 }
 
 // runOne executes one text; panics of the calling goroutine are recovered, hangs are detected by a watchdog.
-// patient: the confirmation run of a case that looked hung or leaking (a loaded machine must not turn into an alarm):
-// 60 s watchdog, 10 s for goroutines to unwind.
+// patient: the confirmation run of a case that looked hung (a loaded machine must not turn into an alarm): 60 s watchdog.
 var patient bool
 
 func runOne(storeKind string, c *tcase) (outcome, detail string, rows int) {
 	watchdog, unwind := 5*time.Second, 300*time.Millisecond
 	if patient {
-		watchdog, unwind = 60*time.Second, 10*time.Second
+		watchdog = 60 * time.Second
 	}
 	text := c.Text
 	before := runtime.NumGoroutine()
@@ -181,15 +180,26 @@ func runOne(storeKind string, c *tcase) (outcome, detail string, rows int) {
 	}()
 	select {
 	case r := <-ch:
-		// goroutines started on behalf of the call must be gone (allow them a moment to unwind)
-		deadline := time.Now().Add(unwind)
-		for runtime.NumGoroutine() > before && time.Now().Before(deadline) {
+		// goroutines started on behalf of the call must be gone.  They get 300 ms to unwind; after that, goroutines that
+		// remain are a leak as soon as none of them is running or runnable (nothing is unwinding any more: they wait for a
+		// channel, a lock or a timer), and in any case after 10 s.  (A fixed 300 ms alone turns a loaded machine into alarms.)
+		start := time.Now()
+		lastDump := time.Time{}
+		for runtime.NumGoroutine() > before {
+			el := time.Since(start)
+			if el > unwind && time.Since(lastDump) > 50*time.Millisecond {
+				lastDump = time.Now()
+				buf := make([]byte, 1<<18)
+				buf = buf[:runtime.Stack(buf, true)]
+				extras, active := engineGoroutines(string(buf))
+				if n := runtime.NumGoroutine(); n > before && r.o != "panic" && (extras == 0 || active == 0 || el > 10*time.Second) {
+					return "leak", fmt.Sprintf("%d goroutines left after %s; %s", n-before, r.o, leakSite(string(buf))), r.n
+				}
+				if r.o == "panic" && el > unwind {
+					break
+				}
+			}
 			time.Sleep(2 * time.Millisecond)
-		}
-		if n := runtime.NumGoroutine(); n > before && r.o != "panic" {
-			buf := make([]byte, 1<<16)
-			buf = buf[:runtime.Stack(buf, true)]
-			return "leak", fmt.Sprintf("%d goroutines left after %s; %s", n-before, r.o, leakSite(string(buf))), r.n
 		}
 		return r.o, r.d, r.n
 	case <-time.After(watchdog):
@@ -208,6 +218,21 @@ func firstFrames(stack string) string {
 		}
 	}
 	return strings.Join(fr, " < ")
+}
+
+// engineGoroutines counts, in a dump of all goroutines, those with badwolf frames that are not the harness's own, and how
+// many of them are running or runnable.
+func engineGoroutines(stack string) (extras, active int) {
+	for _, blk := range strings.Split(stack, "\n\n") {
+		if strings.Contains(blk, "badwolf/") && !strings.Contains(blk, "h_crash") && !strings.Contains(blk, "tracer.init") {
+			extras++
+			head := strings.SplitN(blk, "\n", 2)[0]
+			if strings.Contains(head, "[running") || strings.Contains(head, "[runnable") {
+				active++
+			}
+		}
+	}
+	return
 }
 
 func leakSite(stack string) string {
@@ -565,9 +590,6 @@ func main() {
 			fmt.Fprintf(w, "START %d\n", i)
 			w.Flush()
 			o, d, rows := runOne(sk, &c)
-			for rep := 0; patient && rep < 20 && o != "hang" && o != "leak" && o != "panic"; rep++ {
-				o, d, rows = runOne(sk, &c) // a timing-dependent leak gets twenty more chances to show again
-			}
 			enc.Encode(result{i, c.Kind, sk, c.Text, o, d, rows, lexKindsSafe(c.Text)})
 			w.Flush()
 			if o == "hang" {
@@ -583,13 +605,13 @@ func main() {
 	// case that killed it
 	var mu sync.Mutex
 	var wg sync.WaitGroup
-	var suspects []result // hang / leak outcomes of the first pass: confirmed below before they are reported
+	var suspects []result // hang outcomes of the first pass (5 s watchdog): confirmed below before they are reported
 	emit := func(line string) {
 		mu.Lock()
 		defer mu.Unlock()
-		if strings.Contains(line, `"outcome":"hang"`) || strings.Contains(line, `"outcome":"leak"`) {
+		if strings.Contains(line, `"outcome":"hang"`) {
 			var r result
-			if json.Unmarshal([]byte(line), &r) == nil && (r.Outcome == "hang" || r.Outcome == "leak") {
+			if json.Unmarshal([]byte(line), &r) == nil && r.Outcome == "hang" {
 				suspects = append(suspects, r)
 				return
 			}
